@@ -879,7 +879,11 @@ func do_WITH_CLEANUP(vm *Vm, arg int32) error {
 
 	wasErr := false
 	if exc != py.None {
-		wasErr = res == py.True
+		// The exception is suppressed if __exit__ returns a true value
+		wasErr, err = py.ObjectIsTrue(res)
+		if err != nil {
+			return err
+		}
 	}
 	if wasErr {
 		/* There was an exception and a True return */
